@@ -37,9 +37,11 @@ def get_interaction_matrix(x, y):
     if y.ndim == 1:
         y = y[:, np.newaxis]
 
+    # Small integer dtypes (int8, int16, ...) must not wrap around in the product
+    dtype = np.result_type(x.dtype, y.dtype, np.int64)
     for j1 in range(x.shape[1]):
         for j2 in range(y.shape[1]):
-            l.append(x[:, j1] * y[:, j2])
+            l.append(np.multiply(x[:, j1], y[:, j2], dtype=dtype))
     return np.column_stack(l)
 
 
